@@ -17,7 +17,7 @@ def Ctx.td (cx : Ctx) : TD Nat := ⟨cx.prev.data, cx.prev.r, cx.prev.c⟩
 /-- how many elements a `Vec<T>` can hold -/
 def Ctx.capLimit (cx : Ctx) : Nat :=
   match cx.elem with
-  | .u32 => 2305843009213693951        -- isize::MAX / 4
+  | .u32 | .nan => 2305843009213693951        -- isize::MAX / 4
   | .cell => 576460752303423487        -- isize::MAX / 16
   | .zst | .unit => WORD - 1
 
